@@ -12,9 +12,12 @@
 package c19
 
 import (
+	"context"
 	"fmt"
 	"regexp"
 	"runtime"
+	"runtime/debug"
+	"runtime/metrics"
 	"strings"
 	"testing"
 	"time"
@@ -163,6 +166,7 @@ type execOut struct {
 	Views    int
 	Out      string
 	TimedOut bool
+	Runaway  uint64 // the heap grew by this many bytes before the execution was stopped
 	SetupErr error
 }
 
@@ -179,8 +183,27 @@ func execGuarded(opt run.Opt, sql string, inspect func(s *run.Sess, o *execOut))
 	return o
 }
 
+// heapBytes is a cheap reading of the live+garbage heap.
+func heapBytes() uint64 {
+	sample := []metrics.Sample{{Name: "/memory/classes/heap/objects:bytes"}}
+	metrics.Read(sample)
+	if sample[0].Value.Kind() == metrics.KindUint64 {
+		return sample[0].Value.Uint64()
+	}
+	return 0
+}
+
+// memoryCeiling: a case whose execution grows the heap by more than this is a
+// runaway (the largest generated input is 200 KB; legitimate results stay
+// below a few dozen MB).
+const memoryCeiling = 1 << 30
+
 func execOnce(opt run.Opt, sql string, inspect func(s *run.Sess, o *execOut), limit time.Duration) execOut {
 	ch := make(chan execOut, 1)
+	ctx, cancel := context.WithCancel(context.Background())
+	defer cancel()
+	opt.Ctx = ctx
+	base := heapBytes()
 	go func() {
 		var o execOut
 		defer func() {
@@ -220,13 +243,35 @@ func execOnce(opt run.Opt, sql string, inspect func(s *run.Sess, o *execOut), li
 			o.Out = s.Out.String()
 		}
 	}()
-	t := time.NewTimer(limit)
-	defer t.Stop()
-	select {
-	case o := <-ch:
-		return o
-	case <-t.C:
-		return execOut{TimedOut: true}
+	start := time.Now()
+	tick := time.NewTicker(50 * time.Millisecond)
+	defer tick.Stop()
+	for {
+		select {
+		case o := <-ch:
+			return o
+		case <-tick.C:
+			over := time.Since(start) > limit
+			var grown uint64
+			if h := heapBytes(); h > base {
+				grown = h - base
+			}
+			if !over && grown < memoryCeiling {
+				continue
+			}
+			// stop the execution (csvq's loops poll the context) so that the
+			// memory is released before the next case
+			cancel()
+			select {
+			case <-ch:
+			case <-time.After(15 * time.Second):
+			}
+			debug.FreeOSMemory()
+			if over {
+				return execOut{TimedOut: true}
+			}
+			return execOut{Runaway: grown}
+		}
 	}
 }
 
@@ -237,6 +282,8 @@ func judge(o execOut, what string) (class string, v *fw.Violation) {
 		return "setup", fw.Harness("session setup failed: %v", o.SetupErr)
 	case o.TimedOut:
 		return "hang", fw.V("hang", "the call did not return within 20 s and again not within 80 s on an isolated re-run\n%s", clip(what, 3000))
+	case o.Runaway > 0:
+		return "runaway", fw.V("runaway_memory", "the execution grew the heap by %d MB and was stopped\n%s", o.Runaway>>20, clip(what, 3000))
 	case o.Panic != "":
 		return "panic", fw.V("panic_escaped:"+digitsRe.ReplaceAllString(clip(firstLine(o.Panic), 80), "N"), "a Go panic escaped Execute\n%s\n%s", clip(what, 1500), clip(o.Panic, 3000))
 	}
